@@ -1,6 +1,6 @@
 (** C10 — the hand-written model's constants against the tables regenerated from the Rust
     source on every run ([gen/C10Defaults.v]). *)
-From BV Require Import Base.Prelude Redir.FdTable Redir.Apply Redir.HereDoc gen.C10Defaults.
+From BV Require Import Base.Prelude Redir.FdTable Redir.Apply Redir.HereDoc Redir.HereExpand gen.C10Defaults.
 Local Open Scope nat_scope.
 
 Definition fl6 (t : bool * bool * bool * bool * bool * bool) : oflags :=
@@ -29,7 +29,8 @@ Theorem tables_match_source :
   (forall op b, In (op, b) c10_here_ops_parser <-> In (op, b) c10_here_ops) /\
   TAB = c10_strip_char /\
   (forall c, is_quoting_char c = existsb (N.eqb c) c10_quoting_chars) /\
-  (forall tok, requires_expansion tok = negb (existsb (fun c => existsb (N.eqb c) c10_requires_expansion_chars) tok)).
+  (forall tok, requires_expansion tok = negb (existsb (fun c => existsb (N.eqb c) c10_requires_expansion_chars) tok)) /\
+  heredoc_triggers = c10_heredoc_triggers.
 Proof.
   repeat match goal with |- _ /\ _ => split end; try reflexivity;
     try (intros; match goal with |- flags_of _ ?i _ = _ => try destruct i end; reflexivity).
